@@ -498,7 +498,21 @@ func runLivePair(c *Ctx, r *RuleRun) {
 				if ex, ok := iff.Cond.(*ssa.Extract); ok && ex.Tuple == ssa.Value(s1) {
 					return
 				}
-				if derivesFrom(iff.Cond, func(x ssa.Value) bool { return x == ssa.Value(s1) }) || p.dependsOn(iff.Cond, func(x ssa.Value) bool { return x == ssa.Value(s1) }) {
+				// the part of the answer that can say "refused": the answer itself, or - for an answer of several results -
+				// every result but the timestamp (a test that depends on the timestamp only, e.g. on the entries stamped
+				// with it, is not a test of the refusal)
+				isAnswer := func(x ssa.Value) bool {
+					if tup, isTuple := s1.Type().(*types.Tuple); isTuple && tup.Len() > 1 {
+						ex, isEx := x.(*ssa.Extract)
+						if !isEx || ex.Tuple != ssa.Value(s1) {
+							return false
+						}
+						bt, isBasic := tup.At(ex.Index).Type().Underlying().(*types.Basic)
+						return !(isBasic && bt.Info()&types.IsInteger != 0)
+					}
+					return x == ssa.Value(s1)
+				}
+				if derivesFrom(iff.Cond, isAnswer) || p.dependsOn(iff.Cond, isAnswer) {
 					unreadable = true
 				}
 			})
